@@ -291,4 +291,12 @@ func runConcurrent(cfg concCfg) {
 		rep.Inconclusive("concurrent phase: background refreshes still running after 20 s: %d", len(left))
 	}
 	rep.Count("concurrent_runs", 1)
+	if cfg.Procs == 16 {
+		perQ := map[string]int{}
+		for _, cq := range qs {
+			perQ[cq.name+" "+cq.c.Type+"/"+cq.c.Shape] = cq.count()
+		}
+		rep.Sample(map[string]any{"conc": cfg, "versions_registered_per_question": perQ,
+			"hits_verified_so_far": rep.Get("concurrent_hits_verified"), "stale_hits_so_far": rep.Get("concurrent_stale_hits")})
+	}
 }
